@@ -304,7 +304,7 @@ class TypeMap:
         self.map_insts = {}  # tag -> (k,v)
         self.set_insts = {}  # tag -> k
         self.used_structs = []  # ordered list of struct tags referenced
-        self.arr_insts = {}  # typedef name -> (elem ctype, N) for pointer-to-array types
+        self.carr_insts = {}  # typedef name -> (elem ctype, N) for pointer-to-array types
 
     def learn(self, sugar, desugared):
         if not sugar or not desugared or sugar == desugared:
@@ -355,10 +355,10 @@ class TypeMap:
             if t.to.kind == "func":
                 return "vf_fnptr"
             if t.to.kind == "array" and t.to.n is not None and str(t.to.n).isdigit():
-                # pointer to array of N T (parameter `T a[][N]`): typedef T vf_arr_T_N[N]; the pointee decays as in C++
+                # pointer to array of N T (parameter `T a[][N]`): typedef T vf_carr_T_N[N]; the pointee decays as in C++
                 e = self.c(t.to.to)
-                name = "vf_arr_%s_%s" % (self.tag(e), t.to.n)
-                self.arr_insts[name] = (e, str(t.to.n))
+                name = "vf_carr_%s_%s" % (self.tag(e), t.to.n)
+                self.carr_insts[name] = (e, str(t.to.n))
                 return name + "*"
             return self.c(t.to) + "*"
         if k == "array":
